@@ -182,3 +182,12 @@ Proof.
   - apply row_in_In in H. contradiction.
   - apply pair_in_In. exact H.
 Qed.
+
+(* pairs of underlying types (conversions that involve user-declared named numeric types) *)
+Lemma pairs_contained (l : list (nty * nty)) :
+  forallb (fun st => contained_b (fst st) (snd st)) l = true ->
+  forall s t, In (s, t) l -> forall v, dom s v -> dom t v.
+Proof.
+  intros H s t Hin. rewrite forallb_forall in H. specialize (H (s, t) Hin). cbn in H.
+  apply contained_sound. exact H.
+Qed.
